@@ -7,6 +7,7 @@ import (
 	"regexp"
 	"sort"
 	"strings"
+	"verifh/verifrt"
 
 	nri "github.com/containerd/nri/pkg/api"
 
@@ -525,6 +526,49 @@ func (m *allocMonitor) ReleaseCpus(from *cpuset.CPUSet, cnt int, options ...cpua
 	got, err := m.inner.ReleaseCpus(from, cnt, options...)
 	m.check("release", before, from, cnt, got, err, func(cp *cpuset.CPUSet) (cpuset.CPUSet, error) { return m.inner.ReleaseCpus(cp, cnt, options...) })
 	return got, err
+}
+
+// exerciseAllocator: besides the calls the policies make, C08 quantifies over
+// all candidate sets, counts, priorities and flag combinations: one long-lived
+// monitored allocator on the discovered system is driven with seeded direct
+// calls, each starting from what the previous one left (multi-step history on
+// one allocator) or from a fresh random subset of the online CPUs.
+func (o *oracles) exerciseAllocator(n int) {
+	w := o.w
+	if o.xAlloc == nil {
+		sys, err := sysfs.DiscoverSystem()
+		if err != nil {
+			return
+		}
+		o.xAlloc = &allocMonitor{inner: cpuallocator.NewCPUAllocator(sys), o: o}
+		o.xRand = verifrt.NewRand(verifrt.Mix(w.seed, "c08-direct"))
+		o.xOnline = sys.OnlineCPUs().List()
+	}
+	r := o.xRand
+	for i := 0; i < n; i++ {
+		if o.xSet.Size() == 0 || r.Chance(0.35) {
+			ids := []int{}
+			p := 0.2 + 0.8*r.Float64()
+			for _, id := range o.xOnline {
+				if r.Chance(p) {
+					ids = append(ids, id)
+				}
+			}
+			o.xSet = cpuset.New(ids...)
+		}
+		cnt := r.Intn(o.xSet.Size() + 2)
+		opts := []cpuallocator.Option{cpuallocator.WithPriority(cpuallocator.CPUPriority(r.Intn(int(cpuallocator.NumCPUPriorities))))}
+		if r.Chance(0.6) {
+			opts = append(opts, cpuallocator.WithAllocFlags(cpuallocator.AllocFlag(r.Intn(16))))
+		}
+		set := o.xSet.Clone()
+		if r.Chance(0.75) {
+			o.xAlloc.AllocateCpus(&set, cnt, opts...)
+		} else {
+			o.xAlloc.ReleaseCpus(&set, cnt, opts...)
+		}
+		o.xSet = set
+	}
 }
 
 func (o *oracles) wrapAllocator() {
